@@ -111,6 +111,39 @@ def targeted(rng):
             if bs >= 0:
                 yield "ffile %s %d" % (hx(body), bs)
                 yield "ffile %s %d" % (hx(body[:max(len(body) - 2, 0)]), bs)
+    # publication strings without separators, of every length: the decoder's buffer is sized from the text length
+    good = "AAAAAACVZ2AQAANGVKSV7GJL36LN65AVJYZR6XRZSLHIMRH36GU7WRYNRY7CX2XECYWFQXRB"
+    for k in list(range(0, 20)) + [len(good) - 9, len(good) - 8, len(good) - 7, len(good) - 2, len(good) - 1, len(good)]:
+        yield "pubs %s 0" % (hx(good[:k].encode()) if k else "-")
+        yield "pubs %s 0" % (hx(("A" * k).encode()) if k else "-")
+        yield "pubs %s 0" % (hx(("7" * k).encode()) if k else "-")
+    # a composite element whose payload ends in the beginning of a header: 1 octet of a short header, 1..3 octets of a long one
+    for outer in (0x800, 0x801, 0x221, 0x0100, 0x1f):
+        for first in (b"", tlv(0x01, b"\x05"), tlv(0x02, rng.randbytes(40))):
+            for stub in (b"\x01", b"\x81", b"\x81\x00", b"\x81\x00\x00", b"\xff\xff\xff", b"\x1f"):
+                e = tlv(outer, first + stub)
+                yield "tlv %s 0" % hx(e)
+                yield "el %s" % hx(e)
+                if outer == 0x800: yield "sig %s 0" % hx(e)
+                if outer == 0x221: yield "apdu 2 %s 0" % hx(e)
+                yield "tlv %s 0" % hx(tlv(0x0101, tlv(outer, first + stub)))
+    # renderers: values longer than the caller's buffer can hold (each octet takes two or three characters)
+    for n in (0, 1, 2, 5, 33, 100, 341, 342, 400, 1000):
+        for bl in (0, 1, 2, 3, 10, 64, 1024):
+            yield "str %s %d" % (hx(rng.randbytes(n)) if n else "-", bl)
+    yield "str %s 40" % hx(bytes([1]) + rng.randbytes(32))
+    yield "str %s 4" % hx(tlv(0x0101, tlv(0x01, b"abc") * 20))
+    # metadata sequence numbers around the pool of shared small integers, in a signature whose identity is then extracted
+    for seq in (0, 1, 255, 256, 257, 70000, 1 << 40):
+        s = S.build(rng, nchains=rng.choice([1, 2]), with_cal=False, anchor="none")
+        md = tlv(0x01, b"client\x00") + tlv(0x02, b"machine\x00") + tlv(0x03, be(seq)) + tlv(0x04, be(1500000000000000))
+        if len(md) % 2 == 0: md = tlv(0x1e, b"\x01\x01", nc=1, fwd=1) + md
+        else: md = tlv(0x1e, b"\x01", nc=1, fwd=1) + md
+        s.chains[0].links[0] = S.Link(True, None, "m", md)
+        s.chains[0].index[-1] = s.chains[0].shape()
+        s.relink()
+        yield "sig %s %d" % (hx(s.enc()), rng.randrange(0, 6))
+        yield "sig %s %d" % (hx(s.enc()), rng.randrange(0, 6))
     # service URIs through the full splitter: user info with and without a key, empty parts
     for u in ("ksi+http://user@host.example/p", "ksi+tcp://user@host.example:1", "ksi+http://user:@h/", "ksi+http://:key@h/", "ksi+http://@h/", "ksi://u:k@h:1/p?q#f",
               "http://user@h", "ksi+tcp://u@h", "ksi+tcp://u:k@h", "file:///tmp/x", "ksi+http://u:k:extra@h/", "ksi+http://" + "u" * 300 + "@h/", "ksi+http://u%40x@h/"):
